@@ -62,20 +62,45 @@ Record client := { c_pc : pc; c_prog : list op; c_nh : nat; c_seq : nat; c_rets 
 Inductive event := EInv (c : callid) | ERet (c : callid).
 
 Record st := {
-  actor : option A; busy : option msg; exited : option reason; queue : list msg;
-  senders : nat; slots : list (callid * slot); clients : list client;
-  (* ghost history *)
-  issued : list (callid * nat * list V);        (* call, method, supplied arguments *)
-  enq : list callid;                            (* accepted by the channel, in order *)
-  lost : list callid;                           (* discarded by the handle side (try_send on full / ignored error) *)
-  applied : list (callid * nat * list V * V);   (* executed: call, user method, arguments, result *)
-  dropped : list callid;                        (* accepted but discarded when the actor died *)
+  actor : option A;
+  busy : option msg;
+  exited : option reason;
+  queue : list msg;
+  senders : nat;
+  slots : list (callid * slot);
+  clients : list client;
+  issued : list (callid * nat * list V);
+  enq : list callid;
+  deq : list callid;
+  lost : list callid;
+  applied : list (callid * nat * list V * V);
+  dropped : list callid;
   hist : list event;
-  ctor_runs : nat; spawns : nat; drops : nat; moved : nat }.
+  ctor_runs : nat;
+  spawns : nat;
+  drops : nat;
+  moved : nat }.
 
-Definition set_clients s cl := {| actor := actor s; busy := busy s; exited := exited s; queue := queue s; senders := senders s;
-  slots := slots s; clients := cl; issued := issued s; enq := enq s; lost := lost s; applied := applied s; dropped := dropped s;
-  hist := hist s; ctor_runs := ctor_runs s; spawns := spawns s; drops := drops s; moved := moved s |}.
+Definition with_actor (x : option A) (s : st) : st := {| actor := x; busy := busy s; exited := exited s; queue := queue s; senders := senders s; slots := slots s; clients := clients s; issued := issued s; enq := enq s; deq := deq s; lost := lost s; applied := applied s; dropped := dropped s; hist := hist s; ctor_runs := ctor_runs s; spawns := spawns s; drops := drops s; moved := moved s |}.
+Definition with_busy (x : option msg) (s : st) : st := {| actor := actor s; busy := x; exited := exited s; queue := queue s; senders := senders s; slots := slots s; clients := clients s; issued := issued s; enq := enq s; deq := deq s; lost := lost s; applied := applied s; dropped := dropped s; hist := hist s; ctor_runs := ctor_runs s; spawns := spawns s; drops := drops s; moved := moved s |}.
+Definition with_exited (x : option reason) (s : st) : st := {| actor := actor s; busy := busy s; exited := x; queue := queue s; senders := senders s; slots := slots s; clients := clients s; issued := issued s; enq := enq s; deq := deq s; lost := lost s; applied := applied s; dropped := dropped s; hist := hist s; ctor_runs := ctor_runs s; spawns := spawns s; drops := drops s; moved := moved s |}.
+Definition with_queue (x : list msg) (s : st) : st := {| actor := actor s; busy := busy s; exited := exited s; queue := x; senders := senders s; slots := slots s; clients := clients s; issued := issued s; enq := enq s; deq := deq s; lost := lost s; applied := applied s; dropped := dropped s; hist := hist s; ctor_runs := ctor_runs s; spawns := spawns s; drops := drops s; moved := moved s |}.
+Definition with_senders (x : nat) (s : st) : st := {| actor := actor s; busy := busy s; exited := exited s; queue := queue s; senders := x; slots := slots s; clients := clients s; issued := issued s; enq := enq s; deq := deq s; lost := lost s; applied := applied s; dropped := dropped s; hist := hist s; ctor_runs := ctor_runs s; spawns := spawns s; drops := drops s; moved := moved s |}.
+Definition with_slots (x : list (callid * slot)) (s : st) : st := {| actor := actor s; busy := busy s; exited := exited s; queue := queue s; senders := senders s; slots := x; clients := clients s; issued := issued s; enq := enq s; deq := deq s; lost := lost s; applied := applied s; dropped := dropped s; hist := hist s; ctor_runs := ctor_runs s; spawns := spawns s; drops := drops s; moved := moved s |}.
+Definition with_clients (x : list client) (s : st) : st := {| actor := actor s; busy := busy s; exited := exited s; queue := queue s; senders := senders s; slots := slots s; clients := x; issued := issued s; enq := enq s; deq := deq s; lost := lost s; applied := applied s; dropped := dropped s; hist := hist s; ctor_runs := ctor_runs s; spawns := spawns s; drops := drops s; moved := moved s |}.
+Definition with_issued (x : list (callid * nat * list V)) (s : st) : st := {| actor := actor s; busy := busy s; exited := exited s; queue := queue s; senders := senders s; slots := slots s; clients := clients s; issued := x; enq := enq s; deq := deq s; lost := lost s; applied := applied s; dropped := dropped s; hist := hist s; ctor_runs := ctor_runs s; spawns := spawns s; drops := drops s; moved := moved s |}.
+Definition with_enq (x : list callid) (s : st) : st := {| actor := actor s; busy := busy s; exited := exited s; queue := queue s; senders := senders s; slots := slots s; clients := clients s; issued := issued s; enq := x; deq := deq s; lost := lost s; applied := applied s; dropped := dropped s; hist := hist s; ctor_runs := ctor_runs s; spawns := spawns s; drops := drops s; moved := moved s |}.
+Definition with_deq (x : list callid) (s : st) : st := {| actor := actor s; busy := busy s; exited := exited s; queue := queue s; senders := senders s; slots := slots s; clients := clients s; issued := issued s; enq := enq s; deq := x; lost := lost s; applied := applied s; dropped := dropped s; hist := hist s; ctor_runs := ctor_runs s; spawns := spawns s; drops := drops s; moved := moved s |}.
+Definition with_lost (x : list callid) (s : st) : st := {| actor := actor s; busy := busy s; exited := exited s; queue := queue s; senders := senders s; slots := slots s; clients := clients s; issued := issued s; enq := enq s; deq := deq s; lost := x; applied := applied s; dropped := dropped s; hist := hist s; ctor_runs := ctor_runs s; spawns := spawns s; drops := drops s; moved := moved s |}.
+Definition with_applied (x : list (callid * nat * list V * V)) (s : st) : st := {| actor := actor s; busy := busy s; exited := exited s; queue := queue s; senders := senders s; slots := slots s; clients := clients s; issued := issued s; enq := enq s; deq := deq s; lost := lost s; applied := x; dropped := dropped s; hist := hist s; ctor_runs := ctor_runs s; spawns := spawns s; drops := drops s; moved := moved s |}.
+Definition with_dropped (x : list callid) (s : st) : st := {| actor := actor s; busy := busy s; exited := exited s; queue := queue s; senders := senders s; slots := slots s; clients := clients s; issued := issued s; enq := enq s; deq := deq s; lost := lost s; applied := applied s; dropped := x; hist := hist s; ctor_runs := ctor_runs s; spawns := spawns s; drops := drops s; moved := moved s |}.
+Definition with_hist (x : list event) (s : st) : st := {| actor := actor s; busy := busy s; exited := exited s; queue := queue s; senders := senders s; slots := slots s; clients := clients s; issued := issued s; enq := enq s; deq := deq s; lost := lost s; applied := applied s; dropped := dropped s; hist := x; ctor_runs := ctor_runs s; spawns := spawns s; drops := drops s; moved := moved s |}.
+Definition with_ctor_runs (x : nat) (s : st) : st := {| actor := actor s; busy := busy s; exited := exited s; queue := queue s; senders := senders s; slots := slots s; clients := clients s; issued := issued s; enq := enq s; deq := deq s; lost := lost s; applied := applied s; dropped := dropped s; hist := hist s; ctor_runs := x; spawns := spawns s; drops := drops s; moved := moved s |}.
+Definition with_spawns (x : nat) (s : st) : st := {| actor := actor s; busy := busy s; exited := exited s; queue := queue s; senders := senders s; slots := slots s; clients := clients s; issued := issued s; enq := enq s; deq := deq s; lost := lost s; applied := applied s; dropped := dropped s; hist := hist s; ctor_runs := ctor_runs s; spawns := x; drops := drops s; moved := moved s |}.
+Definition with_drops (x : nat) (s : st) : st := {| actor := actor s; busy := busy s; exited := exited s; queue := queue s; senders := senders s; slots := slots s; clients := clients s; issued := issued s; enq := enq s; deq := deq s; lost := lost s; applied := applied s; dropped := dropped s; hist := hist s; ctor_runs := ctor_runs s; spawns := spawns s; drops := x; moved := moved s |}.
+Definition with_moved (x : nat) (s : st) : st := {| actor := actor s; busy := busy s; exited := exited s; queue := queue s; senders := senders s; slots := slots s; clients := clients s; issued := issued s; enq := enq s; deq := deq s; lost := lost s; applied := applied s; dropped := dropped s; hist := hist s; ctor_runs := ctor_runs s; spawns := spawns s; drops := drops s; moved := x |}.
+
+Notation "s ;; f" := (f s) (at level 61, left associativity, only parsing).
 
 Fixpoint upd {X} (l : list X) (i : nat) (x : X) : list X :=
   match l, i with
@@ -88,23 +113,32 @@ Fixpoint slot_get (l : list (callid * slot)) (c : callid) : option slot :=
   match l with [] => None | (c', x) :: t => if callid_eqb c' c then Some x else slot_get t c end.
 Fixpoint slot_set (l : list (callid * slot)) (c : callid) (x : slot) : list (callid * slot) :=
   match l with [] => [(c, x)] | (c', y) :: t => if callid_eqb c' c then (c', x) :: t else (c', y) :: slot_set t c x end.
+(* the oneshot senders travelling inside discarded messages are dropped *)
 Definition drop_tx (l : list (callid * slot)) (cs : list callid) :=
   fold_left (fun l c => match slot_get l c with Some SEmpty => slot_set l c STxDropped | _ => l end) cs l.
 
 Definition room (cap : option nat) (q : list msg) := match cap with None => true | Some n => length q <? n end.
 Definition alive (s : st) := match exited s with None => true | Some _ => false end.
 Definition meth (m : rmodel) (k : nat) := nth_error (r_meths m) k.
+Definition qids (s : st) := map msg_id (queue s).
+Definition busy_id (s : st) := match busy s with Some x => [msg_id x] | None => [] end.
+Definition applied_ids (s : st) := map (fun e => fst (fst (fst e))) (applied s).
 
 Definition mk_client p prog nh sq rets := {| c_pc := p; c_prog := prog; c_nh := nh; c_seq := sq; c_rets := rets |}.
-
 (* a client thread that panics dies and drops every handle it owns *)
 Definition die (c : client) (cid : callid) := mk_client Dead [] 0 (c_seq c) (c_rets c ++ [(cid, Panicked)]).
+Definition ret (c : client) (p : pc) (cid : callid) (o : outcome) := mk_client p (c_prog c) (c_nh c) (c_seq c) (c_rets c ++ [(cid, o)]).
+Definition goto (c : client) (p : pc) := mk_client p (c_prog c) (c_nh c) (c_seq c) (c_rets c).
+Definition put (s : st) (t : nat) (c : client) (s' : st) : st := with_clients (upd (clients s) t c) s'.
+
+(* the caller of [cid] panics: thread dies, its handles are dropped, the outcome is recorded *)
+Definition client_panics (s : st) (t : nat) (c : client) (cid : callid) : st :=
+  s ;; with_senders (senders s - c_nh c) ;; with_hist (hist s ++ [ERet cid]) ;; put s t (die c cid).
 
 Definition step_client (m : rmodel) (s : st) (t : nat) : option st :=
   match nth_error (clients s) t with
   | None => None
   | Some c =>
-    let put c' := upd (clients s) t c' in
     match c_pc c with
     | Dead => None
     | Ready =>
@@ -114,119 +148,81 @@ Definition step_client (m : rmodel) (s : st) (t : nat) : option st :=
         let ab := match c_prog c with CallAbandon _ _ :: _ => true | _ => false end in
         if (0 <? c_nh c) && (k <? length (r_meths m)) then
           let cid := (t, c_seq c) in
-          Some {| actor := actor s; busy := busy s; exited := exited s; queue := queue s; senders := senders s; slots := slots s;
-                  clients := put (mk_client (Sending cid k vs ab) rest (c_nh c) (S (c_seq c)) (c_rets c));
-                  issued := issued s ++ [(cid, k, vs)]; enq := enq s; lost := lost s; applied := applied s; dropped := dropped s;
-                  hist := hist s ++ [EInv cid]; ctor_runs := ctor_runs s; spawns := spawns s; drops := drops s; moved := moved s |}
-        else Some (set_clients s (put (mk_client Ready rest (c_nh c) (c_seq c) (c_rets c))))
+          Some (s ;; with_issued (issued s ++ [(cid, k, vs)]) ;; with_hist (hist s ++ [EInv cid])
+                  ;; put s t (mk_client (Sending cid k vs ab) rest (c_nh c) (S (c_seq c)) (c_rets c)))
+        else Some (s ;; put s t (mk_client Ready rest (c_nh c) (c_seq c) (c_rets c)))
       | CloneH :: rest =>
         if (0 <? c_nh c) && r_clonable m then
-          Some {| actor := actor s; busy := busy s; exited := exited s; queue := queue s; senders := S (senders s); slots := slots s;
-                  clients := put (mk_client Ready rest (S (c_nh c)) (c_seq c) (c_rets c));
-                  issued := issued s; enq := enq s; lost := lost s; applied := applied s; dropped := dropped s;
-                  hist := hist s; ctor_runs := ctor_runs s; spawns := spawns s; drops := drops s; moved := moved s |}
-        else Some (set_clients s (put (mk_client Ready rest (c_nh c) (c_seq c) (c_rets c))))
+          Some (s ;; with_senders (S (senders s)) ;; put s t (mk_client Ready rest (S (c_nh c)) (c_seq c) (c_rets c)))
+        else Some (s ;; put s t (mk_client Ready rest (c_nh c) (c_seq c) (c_rets c)))
       | DropH :: rest =>
         if 0 <? c_nh c then
-          Some {| actor := actor s; busy := busy s; exited := exited s; queue := queue s; senders := pred (senders s); slots := slots s;
-                  clients := put (mk_client Ready rest (pred (c_nh c)) (c_seq c) (c_rets c));
-                  issued := issued s; enq := enq s; lost := lost s; applied := applied s; dropped := dropped s;
-                  hist := hist s; ctor_runs := ctor_runs s; spawns := spawns s; drops := drops s; moved := moved s |}
-        else Some (set_clients s (put (mk_client Ready rest (c_nh c) (c_seq c) (c_rets c))))
+          Some (s ;; with_senders (pred (senders s)) ;; put s t (mk_client Ready rest (pred (c_nh c)) (c_seq c) (c_rets c)))
+        else Some (s ;; put s t (mk_client Ready rest (c_nh c) (c_seq c) (c_rets c)))
       | Consume k vs :: rest =>
         if 0 <? c_nh c then
           let cid := (t, c_seq c) in
           if r_guard m && (1 <? senders s) then
             (* another clone exists: the None/Err value; `self` is dropped *)
-            Some {| actor := actor s; busy := busy s; exited := exited s; queue := queue s; senders := pred (senders s); slots := slots s;
-                    clients := put (mk_client Ready rest (pred (c_nh c)) (S (c_seq c)) (c_rets c ++ [(cid, Refused)]));
-                    issued := issued s; enq := enq s; lost := lost s; applied := applied s; dropped := dropped s;
-                    hist := hist s ++ [EInv cid; ERet cid]; ctor_runs := ctor_runs s; spawns := spawns s; drops := drops s; moved := moved s |}
+            Some (s ;; with_senders (pred (senders s))
+                    ;; put s t (mk_client Ready rest (pred (c_nh c)) (S (c_seq c)) (c_rets c ++ [(cid, Refused)])))
           else
-            Some {| actor := actor s; busy := busy s; exited := exited s; queue := queue s; senders := senders s; slots := slots s;
-                    clients := put (mk_client (StopSend cid k vs) rest (c_nh c) (S (c_seq c)) (c_rets c));
-                    issued := issued s; enq := enq s; lost := lost s; applied := applied s; dropped := dropped s;
-                    hist := hist s ++ [EInv cid]; ctor_runs := ctor_runs s; spawns := spawns s; drops := drops s; moved := moved s |}
-        else Some (set_clients s (put (mk_client Ready rest (c_nh c) (c_seq c) (c_rets c))))
+            Some (s ;; with_hist (hist s ++ [EInv cid]) ;; put s t (mk_client (StopSend cid k vs) rest (c_nh c) (S (c_seq c)) (c_rets c)))
+        else Some (s ;; put s t (mk_client Ready rest (c_nh c) (c_seq c) (c_rets c)))
       end
     | Sending cid k vs ab =>
       match meth m k with
       | None => None
       | Some rm =>
-        let after_accept (acc : bool) :=
-          (* the message was handed to the channel (acc) or silently discarded (~acc) *)
+        (* the message was handed to the channel (acc) or silently discarded (~acc) *)
+        let after (acc : bool) :=
           let sl := if rm_reply rm then slot_set (slots s) cid (if acc then (if ab then SRxDropped else SEmpty) else STxDropped) else slots s in
-          let c' := if rm_reply rm && negb ab then mk_client (Waiting cid k) (c_prog c) (c_nh c) (c_seq c) (c_rets c)
-                    else mk_client Ready (c_prog c) (c_nh c) (c_seq c) (c_rets c ++ [(cid, if ab then Abandoned else RetUnit)]) in
-          let h := if rm_reply rm && negb ab then hist s else hist s ++ [ERet cid] in
-          {| actor := actor s; busy := busy s; exited := exited s;
-             queue := if acc then queue s ++ [Msg cid k (route (rm_fields rm) vs)] else queue s;
-             senders := senders s; slots := sl; clients := put c';
-             issued := issued s; enq := if acc then enq s ++ [cid] else enq s; lost := if acc then lost s else lost s ++ [cid];
-             applied := applied s; dropped := dropped s; hist := h;
-             ctor_runs := ctor_runs s; spawns := spawns s; drops := drops s; moved := moved s |} in
+          let waits := rm_reply rm && negb ab in
+          let c' := if waits then goto c (Waiting cid k) else ret c Ready cid (if ab then Abandoned else RetUnit) in
+          s ;; with_queue (if acc then queue s ++ [Msg cid k (route (rm_fields rm) vs)] else queue s)
+            ;; with_slots sl
+            ;; with_enq (if acc then enq s ++ [cid] else enq s)
+            ;; with_lost (if acc then lost s else lost s ++ [cid])
+            ;; with_hist (if waits then hist s else hist s ++ [ERet cid])
+            ;; put s t c' in
         if negb (alive s) then
-          if rm_loud_send rm then
-            Some {| actor := actor s; busy := busy s; exited := exited s; queue := queue s; senders := senders s - c_nh c; slots := slots s;
-                    clients := put (die c cid); issued := issued s; enq := enq s; lost := lost s ++ [cid]; applied := applied s; dropped := dropped s;
-                    hist := hist s ++ [ERet cid]; ctor_runs := ctor_runs s; spawns := spawns s; drops := drops s; moved := moved s |}
-          else Some (after_accept false)
-        else if room (r_cap m) (queue s) then Some (after_accept true)
-        else match rm_send rm with SBlocking => None | STry => Some (after_accept false) end
+          if rm_loud_send rm then Some (client_panics s t c cid ;; with_lost (lost s ++ [cid]))
+          else Some (after false)
+        else if room (r_cap m) (queue s) then Some (after true)
+        else match rm_send rm with SBlocking => None | STry => Some (after false) end
       end
     | Waiting cid k =>
       match meth m k, slot_get (slots s) cid with
       | Some rm, Some (SFull v) =>
-        Some {| actor := actor s; busy := busy s; exited := exited s; queue := queue s; senders := senders s; slots := slots s;
-                clients := put (mk_client Ready (c_prog c) (c_nh c) (c_seq c) (c_rets c ++ [(cid, Returned v)]));
-                issued := issued s; enq := enq s; lost := lost s; applied := applied s; dropped := dropped s;
-                hist := hist s ++ [ERet cid]; ctor_runs := ctor_runs s; spawns := spawns s; drops := drops s; moved := moved s |}
+        Some (s ;; with_hist (hist s ++ [ERet cid]) ;; put s t (ret c Ready cid (Returned v)))
       | Some rm, Some STxDropped =>
-        if rm_loud_wait rm then
-          Some {| actor := actor s; busy := busy s; exited := exited s; queue := queue s; senders := senders s - c_nh c; slots := slots s;
-                  clients := put (die c cid); issued := issued s; enq := enq s; lost := lost s; applied := applied s; dropped := dropped s;
-                  hist := hist s ++ [ERet cid]; ctor_runs := ctor_runs s; spawns := spawns s; drops := drops s; moved := moved s |}
-        else
-          Some {| actor := actor s; busy := busy s; exited := exited s; queue := queue s; senders := senders s; slots := slots s;
-                  clients := put (mk_client Ready (c_prog c) (c_nh c) (c_seq c) (c_rets c ++ [(cid, Returned dv)]));
-                  issued := issued s; enq := enq s; lost := lost s; applied := applied s; dropped := dropped s;
-                  hist := hist s ++ [ERet cid]; ctor_runs := ctor_runs s; spawns := spawns s; drops := drops s; moved := moved s |}
+        if rm_loud_wait rm then Some (client_panics s t c cid)
+        else Some (s ;; with_hist (hist s ++ [ERet cid]) ;; put s t (ret c Ready cid (Returned dv)))
       | _, _ => None
       end
     | StopSend cid k vs =>
-      if negb (alive s) then
-        Some {| actor := actor s; busy := busy s; exited := exited s; queue := queue s; senders := senders s - c_nh c; slots := slots s;
-                clients := put (die c cid); issued := issued s; enq := enq s; lost := lost s ++ [cid]; applied := applied s; dropped := dropped s;
-                hist := hist s ++ [ERet cid]; ctor_runs := ctor_runs s; spawns := spawns s; drops := drops s; moved := moved s |}
+      if negb (alive s) then Some (client_panics s t c cid ;; with_lost (lost s ++ [cid]))
       else if room (r_cap m) (queue s) then
-        Some {| actor := actor s; busy := busy s; exited := exited s; queue := queue s ++ [MStop cid]; senders := senders s;
-                slots := slot_set (slots s) cid SEmpty; clients := put (mk_client (StopWait cid k vs) (c_prog c) (c_nh c) (c_seq c) (c_rets c));
-                issued := issued s; enq := enq s ++ [cid]; lost := lost s; applied := applied s; dropped := dropped s;
-                hist := hist s; ctor_runs := ctor_runs s; spawns := spawns s; drops := drops s; moved := moved s |}
+        Some (s ;; with_queue (queue s ++ [MStop cid]) ;; with_slots (slot_set (slots s) cid SEmpty)
+                ;; with_enq (enq s ++ [cid]) ;; put s t (goto c (StopWait cid k vs)))
       else None
     | StopWait cid k vs =>
       match slot_get (slots s) cid with
       | Some (SActor a) =>
-        Some {| actor := actor s; busy := busy s; exited := exited s; queue := queue s; senders := pred (senders s); slots := slots s;
-                clients := put (mk_client Ready (c_prog c) (pred (c_nh c)) (c_seq c) (c_rets c ++ [(cid, Consumed (sem_slf k a vs))]));
-                issued := issued s; enq := enq s; lost := lost s; applied := applied s; dropped := dropped s;
-                hist := hist s ++ [ERet cid]; ctor_runs := ctor_runs s; spawns := spawns s; drops := drops s; moved := moved s |}
-      | Some STxDropped =>
-        Some {| actor := actor s; busy := busy s; exited := exited s; queue := queue s; senders := senders s - c_nh c; slots := slots s;
-                clients := put (die c cid); issued := issued s; enq := enq s; lost := lost s; applied := applied s; dropped := dropped s;
-                hist := hist s ++ [ERet cid]; ctor_runs := ctor_runs s; spawns := spawns s; drops := drops s; moved := moved s |}
+        (* the handle is consumed together with the actor *)
+        Some (s ;; with_senders (pred (senders s)) ;; with_hist (hist s ++ [ERet cid])
+                ;; put s t (mk_client Ready (c_prog c) (pred (c_nh c)) (c_seq c) (c_rets c ++ [(cid, Consumed (sem_slf k a vs))])))
+      | Some STxDropped => Some (client_panics s t c cid)
       | _ => None
       end
     end
   end.
 
-(* the actor dies: the receiver and every queued message (with the oneshot senders inside) are dropped *)
+(* the actor thread ends abnormally: the receiver and every queued message (with the oneshot senders inside) are dropped *)
 Definition crash (s : st) (why : reason) (extra : list callid) : st :=
-  let gone := extra ++ map msg_id (queue s) in
-  {| actor := None; busy := None; exited := Some why; queue := []; senders := senders s;
-     slots := drop_tx (slots s) gone; clients := clients s;
-     issued := issued s; enq := enq s; lost := lost s; applied := applied s; dropped := dropped s ++ gone;
-     hist := hist s; ctor_runs := ctor_runs s; spawns := spawns s; drops := S (drops s); moved := moved s |}.
+  let gone := extra ++ qids s in
+  s ;; with_actor None ;; with_busy None ;; with_exited (Some why) ;; with_queue []
+    ;; with_slots (drop_tx (slots s) gone) ;; with_deq (deq s ++ qids s) ;; with_dropped (dropped s ++ gone) ;; with_drops (S (drops s)).
 
 Definition step_actor (m : rmodel) (s : st) : option st :=
   match exited s with
@@ -237,31 +233,24 @@ Definition step_actor (m : rmodel) (s : st) : option st :=
       match queue s with
       | [] =>
         if senders s =? 0 then
-          Some {| actor := None; busy := None; exited := Some ChannelClosed; queue := []; senders := senders s; slots := slots s; clients := clients s;
-                  issued := issued s; enq := enq s; lost := lost s; applied := applied s; dropped := dropped s;
-                  hist := hist s; ctor_runs := ctor_runs s; spawns := spawns s; drops := S (drops s); moved := moved s |}
+          (* every handle is gone and the queue is drained: the loop ends, the actor value is dropped *)
+          Some (s ;; with_actor None ;; with_exited (Some ChannelClosed) ;; with_drops (S (drops s)))
         else None
       | MStop cid :: q =>
         match actor s with
         | Some a =>
           if r_stop_first m then
-            (* reply (actor, receiver) and return: the actor value moves to the caller *)
-            Some {| actor := None; busy := None; exited := Some Stopped; queue := q; senders := senders s;
-                    slots := slot_set (slots s) cid (SActor a); clients := clients s;
-                    issued := issued s; enq := enq s; lost := lost s; applied := applied s; dropped := dropped s ++ map msg_id q;
-                    hist := hist s; ctor_runs := ctor_runs s; spawns := spawns s; drops := drops s; moved := S (moved s) |}
+            (* reply (actor, receiver) and return: the actor value moves to the caller, the receiver is dropped with it *)
+            Some (s ;; with_actor None ;; with_exited (Some Stopped) ;; with_queue []
+                    ;; with_slots (drop_tx (slot_set (slots s) cid (SActor a)) (map msg_id q))
+                    ;; with_deq (deq s ++ cid :: map msg_id q) ;; with_dropped (dropped s ++ map msg_id q) ;; with_moved (S (moved s)))
           else
-            (* dispatched like any message: the `=> ()` arm ignores it and its oneshot sender is dropped *)
-            Some {| actor := actor s; busy := None; exited := None; queue := q; senders := senders s;
-                    slots := slot_set (slots s) cid STxDropped; clients := clients s;
-                    issued := issued s; enq := enq s; lost := lost s; applied := applied s; dropped := dropped s ++ [cid];
-                    hist := hist s; ctor_runs := ctor_runs s; spawns := spawns s; drops := drops s; moved := moved s |}
+            (* dispatched like any message: the `=> ()` arm ignores it, its oneshot sender is dropped *)
+            Some (s ;; with_queue q ;; with_slots (slot_set (slots s) cid STxDropped)
+                    ;; with_deq (deq s ++ [cid]) ;; with_dropped (dropped s ++ [cid]))
         | None => None
         end
-      | x :: q =>
-        Some {| actor := actor s; busy := Some x; exited := None; queue := q; senders := senders s; slots := slots s; clients := clients s;
-                issued := issued s; enq := enq s; lost := lost s; applied := applied s; dropped := dropped s;
-                hist := hist s; ctor_runs := ctor_runs s; spawns := spawns s; drops := drops s; moved := moved s |}
+      | x :: q => Some (s ;; with_busy (Some x) ;; with_queue q ;; with_deq (deq s ++ [msg_id x]))
       end
     | Some (MStop _) => None
     | Some (Msg cid k fs) =>
@@ -271,28 +260,16 @@ Definition step_actor (m : rmodel) (s : st) : option st :=
         match sem (rm_callee rm) a args with
         | None => Some (crash s (PanickedIn cid) [cid])
         | Some (a', r) =>
-          let s1 := {| actor := Some a'; busy := None; exited := None; queue := queue s; senders := senders s;
-                       slots := if rm_reply rm && rm_reply_own rm then slot_set (slots s) cid (SFull r) else
-                                if rm_reply rm then slot_set (slots s) cid STxDropped else slots s;
-                       clients := clients s; issued := issued s; enq := enq s; lost := lost s;
-                       applied := applied s ++ [(cid, rm_callee rm, args, r)]; dropped := dropped s;
-                       hist := hist s; ctor_runs := ctor_runs s; spawns := spawns s; drops := drops s; moved := moved s |} in
-          if rm_reply rm && rm_reply_own rm then
-            match slot_get (slots s) cid with
-            | Some SRxDropped =>
-              (* the caller abandoned the pending call: the reply fails *)
-              if rm_loud_reply rm then
-                Some (crash {| actor := Some a'; busy := None; exited := None; queue := queue s; senders := senders s; slots := slots s;
-                               clients := clients s; issued := issued s; enq := enq s; lost := lost s;
-                               applied := applied s ++ [(cid, rm_callee rm, args, r)]; dropped := dropped s;
-                               hist := hist s; ctor_runs := ctor_runs s; spawns := spawns s; drops := drops s; moved := moved s |}
-                            (ReplyFailed cid) [])
-              else Some {| actor := Some a'; busy := None; exited := None; queue := queue s; senders := senders s; slots := slots s;
-                           clients := clients s; issued := issued s; enq := enq s; lost := lost s;
-                           applied := applied s ++ [(cid, rm_callee rm, args, r)]; dropped := dropped s;
-                           hist := hist s; ctor_runs := ctor_runs s; spawns := spawns s; drops := drops s; moved := moved s |}
-            | _ => Some s1
-            end
+          let s1 := s ;; with_actor (Some a') ;; with_busy None ;; with_applied (applied s ++ [(cid, rm_callee rm, args, r)]) in
+          if rm_reply rm then
+            if rm_reply_own rm then
+              match slot_get (slots s) cid with
+              | Some SRxDropped =>
+                (* the caller abandoned the pending call: the reply fails *)
+                if rm_loud_reply rm then Some (crash s1 (ReplyFailed cid) []) else Some s1
+              | _ => Some (s1 ;; with_slots (slot_set (slots s) cid (SFull r)))
+              end
+            else Some (s1 ;; with_slots (drop_tx (slots s) [cid]))
           else Some s1
         end
       | _, _ => None
@@ -307,12 +284,12 @@ Definition step (m : rmodel) (s : st) (ch : choice) : option st :=
 Definition step' (m : rmodel) (s : st) (ch : choice) : st := match step m s ch with Some s' => s' | None => s end.
 Definition run_from (m : rmodel) (s : st) (sched : list choice) : st := fold_left (step' m) sched s.
 
-(* state right after `Live::new(..)` succeeded: one constructor run, one channel, one spawn;
-   client 0 owns the handle, the other clients own none (they receive clones by CloneH/handles given at start) *)
+(* state right after `Live::new(..)` succeeded: one constructor run, one channel, one spawn.
+   progs: per client its program and the number of handles (clones) it starts with *)
 Definition init (a0 : A) (progs : list (list op * nat)) : st :=
   {| actor := Some a0; busy := None; exited := None; queue := []; senders := fold_right (fun p n => snd p + n) 0 progs;
      slots := []; clients := map (fun p => mk_client Ready (fst p) (snd p) 0 []) progs;
-     issued := []; enq := []; lost := []; applied := []; dropped := []; hist := [];
+     issued := []; enq := []; deq := []; lost := []; applied := []; dropped := []; hist := [];
      ctor_runs := 1; spawns := 1; drops := 0; moved := 0 |}.
 Definition run (m : rmodel) (a0 : A) (progs : list (list op * nat)) (sched : list choice) : st := run_from m (init a0 progs) sched.
 
